@@ -26,13 +26,14 @@ const (
 	LFT    = "FT"    // lazy transpose of a column-major base
 	LFS    = "FS"    // unit-step slice of a larger column-major parent
 	LFSS   = "FSS"   // stepped slice of a larger column-major parent
+	LCSS   = "CSS"   // Clone() of a stepped slice: owns its storage but keeps the view's strides and storage window
 	LSSS   = "SSS"   // unit-step slice of a stepped slice: its storage window is longer than its elements need (ends at the next selected element)
 )
 
 // ColViewLayouts are the views over column-major storage (C16).
 var ColViewLayouts = []string{LFT, LFS, LFSS}
 
-var AllLayouts = []string{LC, LF, LFconv, LT, LS, LSS, LMT, LMS, LMSS, LST, LTS}
+var AllLayouts = []string{LC, LF, LFconv, LT, LS, LSS, LMT, LMS, LMSS, LST, LTS, LCSS}
 
 // RowLayouts are the C06 operand layouts {contiguous, lazily transposed, sliced, step-sliced, materialised}.
 var RowLayouts = []string{LC, LT, LS, LSS, LMS}
@@ -401,6 +402,34 @@ func (op *Operand) build(m *model.ND, layout string, rng *rand.Rand) error {
 		op.keep = append(op.keep, parent)
 		op.Recipe["parent"] = pshape
 		op.Recipe["slices"] = specStrings(mspecs)
+	case LCSS:
+		src, err := BuildWith(m, LSS, rng, op.Eng)
+		if err != nil {
+			return err
+		}
+		if src.Layout != LSS {
+			return degrade()
+		}
+		cl, ok := src.D.Clone().(*tensor.Dense)
+		if !ok {
+			return fmt.Errorf("Clone did not return *Dense")
+		}
+		es := int(m.T.Size())
+		if es == 0 || !ShapeEq([]int(cl.Strides()), []int(src.D.Strides())) {
+			return degrade() // the clone was compacted: it is a plain contiguous tensor, not the layout asked for
+		}
+		ws := int(src.D.Uintptr()-src.Root.Uintptr()) / es
+		op.D, op.Root = cl, cl
+		op.Backing = cl.Data()
+		op.keep = append(op.keep, src.D, src.Root)
+		op.Recipe["of"] = src.Recipe
+		op.Off = make([]int, len(src.Off))
+		for r, o := range src.Off {
+			op.Off[r] = o - ws
+		}
+		if reflect.ValueOf(op.Backing).Kind() != reflect.Slice {
+			return degrade()
+		}
 	case LSSS:
 		// m extended by one more entry along its last axis is built as a stepped slice; m is then cut out of it
 		if rank < 1 || len(m.V) < 1 {
